@@ -112,7 +112,7 @@ fn check_c08(seed: u64, tier: &str) -> i32 {
     need_shim();
     violations.extend(c08b::run_layer_b(seed, tier, &mut ev));
     ev.extra.insert("components".into(), serde_json::json!({
-        "real": ["fml parser", "fml compiler", "Program::serialize and all primitive writers", "NamedSink", "std::io::BufWriter", "std::io::LineWriter"],
+        "real": ["fml parser", "fml compiler", "Program::serialize and all primitive writers", "std::io::BufWriter", "std::io::LineWriter"],
         "real_layer_b": ["the unmodified `fml compile` CLI path as a child process (debug and release builds)", "kernel files, pipes and /dev/full"],
         "stub": ["SimFd (simulated file descriptor driven by an explicit fault plan)", "foreign decoder (coverage annotation only)",
                  "libfmlsim.so: write()/read() outcomes, getrandom(), clock at the libc boundary of the child"],
@@ -137,7 +137,7 @@ fn check_cycle(which: cycle::Which, seed: u64, tier: &str) -> i32 {
     need_shim();
     violations.extend(cycleb::run_layer_b(which.id(), seed, tier, &mut ev));
     ev.extra.insert("components".into(), serde_json::json!({
-        "real": ["fml parser", "fml compiler", "Program::serialize", "Program::from_bytes", "Program::from (direct construction)", "per-opcode VM via step_with", "std BufWriter/LineWriter/BufReader", "FML NamedSink"],
+        "real": ["fml parser", "fml compiler", "Program::serialize", "Program::from_bytes", "Program::from (direct construction)", "per-opcode VM via step_with", "std BufWriter/LineWriter/BufReader", "Box<dyn Write> over the std adaptors"],
         "real_layer_b": ["the unmodified fml CLI (compile, run, execute, disassemble) as child processes, debug and release"],
         "stub": ["SimFd / SimSource (simulated disk endpoints under explicit fault plans)", "foreign encoder/decoder (the other party)",
                  "libfmlsim.so: read() outcomes on the image fd / stdin of the loading process"],
